@@ -411,7 +411,7 @@ def run(ctx):
     for k in range(ctx.n(45, 500)):
         _real_case(ctx, rng, k, hx_jobs, gain_jobs)
     terms = t1 + t2 + [j[0][0] for j in hx_jobs] + [j[0][0] for j in gain_jobs]
-    model = ctx.coq_eval("c19", "Base.QN Base.QC C19.Model", terms, shard=40, timeout=280)
+    model = ctx.coq_eval("c19", "Base.QN Base.QC C19.Model", terms, shard=40, timeout=900)
     pos = 0
     for m, o, d in zip(model[pos:pos + len(t1)], o1, d1):
         ctx.corr_checked += 1
